@@ -110,6 +110,13 @@ _add("C11",
      "Trusted: spawn time of a handler = manager event after which the peer first appears in the manager's table. A receiver that lags more than 32 announcements (a peer that stops reading) is outside the stated quantifier and not generated.",
      assumptions=SIM_ASSUMPTIONS)
 
+_add("C09",
+     "wire oracle over the simulation: multiset matching of served blocks against unanswered requests, byte comparison with the original content, disk oracle for ownership, choke state judged against both the manager's snapshot and the last choke-state frame written; panic capture",
+     "seeded scenarios: the client first fetches (part of) a 1..8 piece torrent from a fast seeder, then 1..4 incoming and 0..11 dialled request fuzzers run for 35..80 virtual seconds: sensible requests (whole blocks and legal sub-ranges, biased to re-request the cached piece), boundary-biased (index, begin, length) incl. begin+length = 2^32+-k, requests sent while choked, NotInterested spells spanning choke rotations (peers advertise pieces the client lacks so that this does not end the connection), more than 10 competing downloaders so that rotations choke some of them. Every Piece written must match a distinct unanswered request exactly, be <= 16 KiB, inside the piece, byte-identical to the stored content, of an owned piece, and not be written while both the manager and the wire say 'choked'. Distinct non-trivial = distinct manager interleaving signatures.",
+     "Exploration: 1.5e3 (quick) / 4e4 (thorough) scenarios with about 1e5 / 3e6 requests; vacuity guards on served and refused requests; evidence counts rotations and Choke frames actually written.",
+     "Trusted: the harness' request log. 'Unchoked' is judged soundly against both views so that a request racing with an Unchoke/Choke in flight is never an alarm.",
+     assumptions=SIM_ASSUMPTIONS)
+
 NOT_APPLICABLE = []
 
 HOOK_COMMITS = ['f4e11fff6207578681bfe159fde132435a75db6b', 'c80cd8e781736d9cf047ae63c4117d911e79b492', '36e923c803e32367e0b9567db19ed45c7e679e57', 'd4d0caac768fbc161be45a56b818f54b8f8544b7', '18ace6ea4c44e4f9b55cbb2adc1f6155c1036680']
